@@ -59,8 +59,8 @@ impl Java {
             as_varint(self.request_settings.protocol_version).as_slice(),
             // Server address (can be anything)
             as_string(&self.request_settings.hostname)?.as_slice(),
-            // Server port (can be anything)
-            &self.socket.port().to_le_bytes(),
+            // Server port (can be anything), an Unsigned Short: big-endian like every number of the protocol
+            &self.socket.port().to_be_bytes(),
             &[
                 // Next state (1 for status)
                 0x01,
